@@ -976,6 +976,7 @@ class SP(Robot):
 
         #solres = sci.optimize.fmin(fkprime, self.getTopT().TAA, disp=True)
         init = self.getTopT().TAA
+        start_pose = self.getTopT().copy()
         found_sol = True
         solres = sci.optimize.fsolve(fk, init)
         sol = tm(solres)
@@ -985,6 +986,8 @@ class SP(Robot):
         nLens = self.getLens()
         for j in range(6):
             if abs(abs(L[j]) - abs(nLens[j])) > 0.00001 or not self.validate(True):
+                #Start the Newton fallback from the pose FK was called in, not from fsolve's failed iterate
+                self.IK(top_plate_pos = start_pose, bottom_plate_pos = plate_pos, protect = True)
                 return self._FKRaphson(L, plate_pos, protect)
         #If not "Protected" from recursion, call IK.
         if not protect:
